@@ -134,6 +134,19 @@ CHECKS = {
          'int(text, base) modelled on plain digit strings; termination of the real loops is observed (time limit), the model '
          'functions are total by construction.',
     technique='Coq proof (Q floor/ceiling lemmas with lra/lia, digit-string round trips, finite sweep by vm_compute) + correspondence'),
+ 'C04': dict(
+    text='Coq theorems about the LALR tables ply actually uses (regenerated from the live parser on every run): a finite '
+         'certificate closed by vm_compute; by induction on trees of any shape and depth, the LR driver parses the tokens of '
+         'every well-parenthesised tree (atoms, unary minus, the eleven binary operators, parentheses) to exactly that tree, '
+         'and the real driver with the real grammar actions evaluates them to the post-order value of the tree; minimal and '
+         'full renderings are well-parenthesised, denote the tree, evaluate identically and equal the exact integer '
+         'evaluation; the declared precedence is the usual one. Tied to the code by generated tables plus random trees in '
+         'three renderings through Parser.parse vs the interpreter model and vs exact rational evaluation.',
+    design='7/C04',
+    note='atoms of the theorem are number literals (variables, cells and calls are covered by the correspondence); ply '
+         'LRParser and the grammar actions are modelled (lr_step, sem_action) and tied by correspondence; a changed '
+         'precedence/table breaks the certificate obligation itself.',
+    technique='Coq proof (table certificate by vm_compute + structural induction on trees over the generated LR tables) + generated tables + random-tree correspondence'),
 }
 PENDING = {}
 def main():
